@@ -18,7 +18,9 @@ ASSUMPTIONS = hc.COMMON_ASSUMPTIONS + [
     "outside the claim: larger databases, strings outside the alphabets",
 ]
 BOUNDS = {"points": 3, "ops_after": 2}
-HARNESS = {"h_remove": hc.h_remove}
+from .c01 import h_wide  # noqa: E402
+
+HARNESS = {"h_remove": hc.h_remove, "h_wide": h_wide}
 
 REMOVAL_QUERIES = (
     [("time", OP, SYM), ("time_test", "ge", SYM), ("tag", "k", OP, SYM), ("tag_exists", "k"), ("tag_re", "k", "matches", "a|", 0), ("field", "f", OP, SYM), ("field_exists", "f"), ("meas", OP, SYM), ("noop", "tag"), ("field_map", "f", "f_neg", "<", SYM)]
@@ -55,6 +57,22 @@ def obligations(tier):
         for q in (A2, B):
             obs.append(_ob(f"rm+insert/{q_repr(q)}/{cname}", q=q, kind="rm", ai=ai, reindex=rx, alpha="sel", then_insert=True, read=("time", OP, SYM), split_op=True))
             obs.append(_ob(f"read+rm/{q_repr(q)}/{cname}", q=q, kind="rm", ai=ai, reindex=rx, alpha="sel", pre_read=True))
+    # removal executed on a manually built valid index (auto_index off, reindex BEFORE the removal, none after)
+    for q in (B, A2, ("tag", "k", OP, SYM), ("and", A, B)):
+        obs.append(_ob(f"rm-manual-pre/{q_repr(q)}", q=q, kind="rm", ai=False, reindex_pre=True, alpha="sel", n=3, split_op=True, torder="sym"))
+        obs.append(_ob(f"rm-manual-pre+insert/{q_repr(q)}", q=q, kind="rm", ai=False, reindex_pre=True, alpha="sel", n=3, split_op=True, torder="sym", then_insert=True))
+    for name in ("m", "n"):
+        obs.append(_ob(f"drop-manual-pre/{name}", kind="drop", name=name, ai=False, reindex_pre=True, alpha="sel"))
+    # one measurement name a prefix of the other (filter and handle), index-served and scan-served
+    for mf in ("m", "mm"):
+        for q in (B, ("not", C), ("noop", "tag")):
+            for cname, ai, rx in CONFIGS[:2]:
+                obs.append(_ob(f"rm-prefix-names/filter/{mf}/{q_repr(q)}/{cname}", q=q, kind="rm", mfilter=mf, ai=ai, alpha="sel", torder="ooo", meas_alpha=["m", "mm"]))
+                obs.append(_ob(f"rm-prefix-names/handle/{mf}/{q_repr(q)}/{cname}", q=q, kind="rm_via", via=mf, ai=ai, alpha="sel", torder="ooo", meas_alpha=["m", "mm"]))
+    for cname, ai, rx in CONFIGS[:2] + [("manual-pre", False, False)]:
+        for extra in ({}, {"two_meas": True, "mfilter": "m"}):
+            o = {"id": f"wide/rm/{cname}{'/filter' if extra else ''}", "harness": "h_wide", "params": dict({"kind": "rm", "ai": ai, "reindex_pre": cname == "manual-pre", "n": 10 if th else 9}, **extra), "budget_s": 120 if not th else 600, "presets": {}}
+            obs.append(o)
     csvq = [("time", OP, SYM), B, ("and", ("not", C), B), ("tag_exists", "k")] + ([("field", "f", OP, SYM), ("or", A, B)] if th else [])
     for q in csvq:
         for cname, ai, rx in CONFIGS[:2]:
